@@ -17,6 +17,7 @@ package vsync
 
 import (
 	"fmt"
+	"reflect"
 	"sort"
 	gosync "sync"
 	"time"
@@ -417,6 +418,32 @@ func Access(obj interface{}, field string, write bool, where string) {
 		}
 		s.lastR[key][t.id] = me
 	}
+}
+
+// AccessF is Access with the object computed lazily: the generated probes sit in front of
+// statements whose own evaluation may be guarded (a nil check in the same condition), so a
+// panic while computing the object means "nothing accessed". A nil getter names a package variable.
+func AccessF(get func() interface{}, field string, write bool, where string) {
+	s := active()
+	if s == nil || s.current == nil {
+		return
+	}
+	var obj interface{} = "package-var"
+	if get != nil {
+		ok := false
+		func() {
+			defer func() { _ = recover() }()
+			obj = get()
+			ok = true
+		}()
+		if !ok || obj == nil {
+			return
+		}
+		if v := reflect.ValueOf(obj); v.Kind() != reflect.Ptr || v.IsNil() {
+			return
+		}
+	}
+	Access(obj, field, write, where)
 }
 
 // Active reports whether an exploration is running (harness helper).
